@@ -625,7 +625,8 @@ def walk_range(case, impl):
                         cp["dist"] = math.sqrt(float(exact_sq(ps, pd)))
                         if margin == 0 and lattice:
                             cp.update(judged=True, expect=True, boundary=True)
-                        elif abs(margin) > 1e-6:
+                        elif abs(margin) > 1e-12 * (float(rng[c["n"]]) ** 2 + 1.0):
+                            # beyond every rounding error of the squared distance (about 1e-16 relative)
                             cp.update(judged=True, expect=(margin < 0))
                     copies.append(cp)
     return copies, fails
@@ -680,6 +681,14 @@ class C09(SimCheck):
                 pts.append([anchor[0] + o[0], anchor[1] + o[1], anchor[2] + o[2]])
         cfg["nNodes"] = n
         cfg["initPos"] = [[fbits(float(x)) for x in p] for p in pts]
+        if r.random() < 0.35 and len(pts) > 1:
+            # a hair inside / beyond the boundary: one node is shifted by a nanometre along one axis (far above
+            # the rounding error of the squared distance, far below any tolerance somebody might slip in)
+            k = r.randrange(1, len(pts))
+            ax = r.randrange(3)
+            q = [float(x) for x in pts[k]]
+            q[ax] += r.choice([-1.0e-9, 1.0e-9, 3.0e-9])
+            cfg["initPos"][k] = [fbits(x) for x in q]
         cfg["defaultRange"] = fbits(float(r.choice([R, R, R, R + 1, R - 1, 60])))
         cfg["delay"] = r.choice([0, 1, 512, 1024, 3072, 3072])
         cfg["maxIter"] = None
